@@ -18,7 +18,7 @@ fn fwd(op: &Op, _ctx: &dyn Context, operands: &mut dyn CoordinateSet) -> usize {
     for i in 0..n {
         let mut coord = operands.get_coord(i);
 
-        let lat = coord[1] + lat_0;
+        let lat = coord[1];
         let (s, c) = lat.sin_cos();
         let cc = c * c;
         let ss = s * s;
@@ -38,7 +38,8 @@ fn fwd(op: &Op, _ctx: &dyn Context, operands: &mut dyn CoordinateSet) -> usize {
         coord[0] = x_0 + k_0 * N * ((c * sd).atanh() + z * (1. + oo * (36. * cc - 29.) / 10.));
 
         // Northing
-        let m = ellps.meridian_latitude_to_distance(lat);
+        // lat_0 defines the origin of the northings: the meridian arc is counted from there
+        let m = ellps.meridian_latitude_to_distance(lat) - ellps.meridian_latitude_to_distance(lat_0);
         let znos4 = z * N * dlon * s / 4.;
         let ecc = 4. * eps * cc;
         coord[1] = y_0 + k_0 * (m + N * theta_2 + znos4 * (9. + ecc + oo * (20. * cc - 11.)));
@@ -67,7 +68,8 @@ fn inv(op: &Op, _ctx: &dyn Context, operands: &mut dyn CoordinateSet) -> usize {
         let mut coord = operands.get_coord(i);
         // Footpoint latitude, i.e. the latitude of a point on the central meridian
         // having the same northing as the point of interest
-        let lat = ellps.meridian_distance_to_latitude((coord[1] - y_0) / k_0);
+        let m_0 = ellps.meridian_latitude_to_distance(lat_0);
+        let lat = ellps.meridian_distance_to_latitude((coord[1] - y_0) / k_0 + m_0);
         let (s, c) = lat.sin_cos();
         let t = s / c;
         let cc = c * c;
@@ -80,7 +82,7 @@ fn inv(op: &Op, _ctx: &dyn Context, operands: &mut dyn CoordinateSet) -> usize {
 
         // Latitude
         let xet = xx * xx * eps * t / 24.;
-        coord[1] = lat_0 + (1. + cc * eps) * (theta_5 - xet * (9. - 10. * cc)) - eps * cc * lat;
+        coord[1] = (1. + cc * eps) * (theta_5 - xet * (9. - 10. * cc)) - eps * cc * lat;
 
         // Longitude
         let approx = lon_0 + theta_4;
